@@ -233,9 +233,12 @@ func c16Matrix(c *engine.Ctx) {
 		{"bases[test,b1.test]", drv.Config{Kind: drv.Mem, HostBases: []string{"test", "b1.test"}}, []string{"test", "b1.test"}},
 		{"bases[b1.test,test]", drv.Config{Kind: drv.Mem, HostBases: []string{"b1.test", "test"}}, []string{"b1.test", "test"}},
 		{"bases[b1]+host-bucket", drv.Config{Kind: drv.Mem, HostBucket: true, HostBases: []string{"b1.test"}}, []string{"b1.test"}},
+		{"bases[b1]+host-bucket=false-given-last", drv.Config{Kind: drv.Mem, HostBases: []string{"b1.test"}, HostBucketOffLast: true}, []string{"b1.test"}},
 	}
 	hosts := []string{"aaa.b1.test", "aaa.b2.example", "aaa.b1.test:9000", "b1.test", "x.aaa.b1.test", "unrelated.org", ".b1.test", "aaa.b1.test.", "AAA.b1.test", "aaa", "bbb.b1.test", "aaa.xb1.test"}
 	paths := []string{"/", "/k", "/k/", "//k", "/d/x/", "/aaa/k", "/aaa", "//aaa//k/", "/aaa/", "/bbb/k"}
+	// request targets whose escaping is not Go's default one (net/http then keeps URL.RawPath)
+	rawTargets := []string{"/k%3Dv", "/d%2Fx", "/aaa/k%3Dv", "/k%2Bp%40q%3Ar", "/k!*()"}
 	type route struct {
 		method, query string
 		hdr           [][2]string
@@ -247,7 +250,7 @@ func c16Matrix(c *engine.Ctx) {
 	setup := func(w *drv.World) {
 		for _, b := range []string{"aaa", "bbb"} {
 			w.Backend.CreateBucket(b)
-			for _, k := range []string{"k", "d/x", "aaa/k", "/k"} {
+			for _, k := range []string{"k", "d/x", "aaa/k", "/k", "k=v", "k+p@q:r", "k!*()"} {
 				w.Backend.PutObject(b, k, map[string]string{"x-amz-meta-a": b + k}, strings.NewReader("body-"+b+"-"+k), int64(len("body-"+b+"-"+k)))
 			}
 		}
@@ -257,13 +260,19 @@ func c16Matrix(c *engine.Ctx) {
 		host string
 		path string
 		r    route
+		raw  bool // path is a raw request target
 	}
 	var jobs []job
 	for _, o := range opts {
 		for _, h := range hosts {
 			for _, p := range paths {
 				for _, r := range routes {
-					jobs = append(jobs, job{o, h, p, r})
+					jobs = append(jobs, job{o, h, p, r, false})
+				}
+			}
+			for _, p := range rawTargets {
+				for _, r := range routes[:4] {
+					jobs = append(jobs, job{o, h, p, r, true})
 				}
 			}
 		}
@@ -307,8 +316,13 @@ func c16Matrix(c *engine.Ctx) {
 		if jb.r.body != "" || jb.r.method == "PUT" || jb.r.method == "POST" {
 			body = []byte(jb.r.body)
 		}
-		rh := hw.Do(drv.Req{Method: jb.r.method, Path: jb.path, Query: jb.r.query, Header: jb.r.hdr, Body: body, Host: jb.host})
-		rp := pw.Do(drv.Req{Method: jb.r.method, Path: eff, Query: jb.r.query, Header: jb.r.hdr, Body: body, Host: jb.host})
+		reqH := drv.Req{Method: jb.r.method, Path: jb.path, Query: jb.r.query, Header: jb.r.hdr, Body: body, Host: jb.host}
+		reqP := drv.Req{Method: jb.r.method, Path: eff, Query: jb.r.query, Header: jb.r.hdr, Body: body, Host: jb.host}
+		if jb.raw {
+			reqH.RawTarget, reqP.RawTarget = jb.path, eff
+		}
+		rh := hw.Do(reqH)
+		rp := pw.Do(reqP)
 		c.Add(0, 1, 1, 2)
 		ch, cp := c16Canon(rh), c16Canon(rp)
 		if ch == cp {
